@@ -84,7 +84,7 @@ def closed_form(case):
         scale = max(float(np.max(np.abs(B[:, allm]))), floor[name], 1e-300)
         e = float(np.max(np.abs((A - B)[:, m]))) / scale
         resid[f"closed_form_{name}"] = e
-        if e > 1e-9:
+        if not e <= 1e-9:
             viol.append({"what": "analytic_mode_differs_from_closed_form", "field": name, "rel": e, "footprint": fp, "levels": lv, "bg": bg,
                          "setup": desc})
     # outside the cut-off nothing may be left
@@ -94,7 +94,7 @@ def closed_form(case):
     if out.any():
         e = float(np.max(np.abs(F[:, out]))) / max(float(np.max(np.abs(F))), 1e-300)
         resid["beyond_cutoff"] = e
-        if e > 1e-12:
+        if not e <= 1e-12:
             viol.append({"what": "component_beyond_cutoff_survives_truncation", "rel": e, "setup": desc})
     b = {f"a:modes:{St['mode_class']}": 1, "a:footprint" if fp else "a:dispersion": 1, f"a:levels:{lkind}": 1}
     return {"evals": 2 * nl, "nontrivial": nm >= 8, "sig": f"a|{case['idx']}", "buckets": b, "resid": resid,
